@@ -186,6 +186,24 @@ func genTrees(c *Ctx, which string, seeds []seedBox) {
 		}
 		pool[t] = append(pool[t], sb.bs)
 	}
+	// leaves of every other type the corpus has (repository media, API-built boxes, committed regression boxes):
+	// the model does not answer for trees that contain them, the direct oracle (four code paths) does — a leaf decoder
+	// that reads beyond its box is only seen when siblings follow it
+	for _, sb := range seeds {
+		t := string(sb.bs[4:8])
+		if len(sb.bs) > 300 || isPlainContainer(t) || modelledBoxes[t] || t == "mdat" {
+			continue
+		}
+		if _, isContainer := walkContainers[t]; isContainer {
+			continue
+		}
+		if len(pool[t]) == 0 {
+			types = append(types, t)
+		}
+		if len(pool[t]) < 8 {
+			pool[t] = append(pool[t], sb.bs)
+		}
+	}
 	r := rand.New(rand.NewSource(c.Seed*7919 + 13))
 	for it := 0; it < c.N(1500, 30000); it++ {
 		typ := plainContainerTypes[r.Intn(len(plainContainerTypes))]
